@@ -409,6 +409,9 @@ impl Runner {
         let mut pc = BTreeSet::new();
         p.columns(&mut pc);
         let kinds: Vec<String> = self.st.indices.iter().filter(|i| pc.contains(&i.column)).map(|i| i.kind.clone()).collect();
+        if crate::e1::has_not_over_in_conjunction(p, false) {
+            return ":not-over-in-conjunction".to_string();
+        }
         if kinds.is_empty() {
             return String::new();
         }
